@@ -11,7 +11,7 @@ CONTAINER_OPS = ["cbor_array_push", "cbor_array_set", "cbor_array_replace", "_cb
 NOT_CLIENTS = {"cbor_decref", "cbor_intermediate_decref", "cbor_incref", "cbor_move"}
 
 
-def check_balance(chk, rule, prog, eff, cache, N, B, ctors, fnames=None, floor=None):
+def check_balance(chk, rule, prog, eff, cache, N, B, ctors, fnames=None, floor=None, tag=""):
     """ownership balance over every path of the given functions (shared with C04/C11)"""
     nacq = 0
     for f in (prog.lib_funcs() if fnames is None else [prog.fn(n) for n in fnames]):
@@ -62,7 +62,7 @@ def check_balance(chk, rule, prog, eff, cache, N, B, ctors, fnames=None, floor=N
                                   acq.ins.loc() if acq is not None and acq.ins is not None else where, pa)
         for key, (ok, inst, detail, loc, pa) in worst.items():
             nacq += 1
-            chk.ob(rule, "%s: %s" % (f.name, inst), ok, loc, fn=f.name, key="%s:%s" % (key[0], key[1] if len(key) < 3 else key[2]),
+            chk.ob(rule, "%s%s: %s" % (tag, f.name, inst), ok, loc, fn=f.name, key="%s%s:%s" % (tag, key[0], key[1] if len(key) < 3 else key[2]),
                    detail=detail, path=pa.block_lines() if not ok else None)
     if floor:
         chk.floor(rule, "owned references tracked", nacq, floor)
@@ -111,6 +111,22 @@ def run(ctx, chk):
 
     # ---- release / balance
     check_balance(chk, "C06.release", prog, eff, cache, N, B, ctors, floor=60)
+
+    if ctx.tier == "thorough":
+        # deeper unrolling (every loop 0..3 times) for the two generic trace checkers
+        deep = O.PathCache(prog, eff, loop_bound=3)
+        N3 = O.Nullness(prog, eff, deep)
+        B3 = O.Balance(prog, eff, deep, N3)
+        nd = 0
+        for f in prog.lib_funcs():
+            for ok, kind, origin, e, detail, pa in N3.check_function(f):
+                nd += 1
+                use = (e.callee if e.kind == "call" else e.kind) if kind == "deref" else "returned structure"
+                chk.ob("C06.null", "[3 iterations] %s: %s result -> %s" % (f.name, origin.callee, use), ok,
+                       (e.ins.loc() if kind == "deref" else origin.ins.loc()), fn=f.name, key="deep:%s:%s:%s" % (f.name, origin.callee, use),
+                       detail="" if ok else detail)
+        check_balance(chk, "C06.release", prog, eff, deep, N3, B3, ctors, tag="[3 iterations] ")
+        chk.extra["deep_paths"] = sum(len(deep.get(f.name)) for f in prog.lib_funcs())
 
     # ---- raw blocks
     nblocks = 0
